@@ -3,6 +3,8 @@
 -/
 import PowHsm.Spec.C04
 import PowHsm.Proofs.Monad
+import PowHsm.Proofs.Codes
+import PowHsm.Proofs.ConformMgr
 import PowHsm.Generated.Firmware
 namespace PowHsm
 namespace Props.C04
@@ -112,6 +114,115 @@ theorem opcodes_as_specified :
 
 /-- the device error range is what the firmware headers use: 0x69A0–0x6BFF and 0x6D00 -/
 theorem user_range_as_documented : userRange = [(0x69A0, 0x6BFF), (0x6D00, 0x6D00)] := by decide
+
+/-! ### the whole manager: every reply carries a documented code; the device's error range never stops it -/
+
+theorem errorcode_errReply (c : Int) : errorcode? (errReply c) = some c := by
+  simp [errorcode?, errReply, Json.lookup]
+
+theorem errorcode_finish (o : Out) : errorcode? (finish o) = some o.1 := by
+  unfold finish
+  split
+  · exact errorcode_errReply _
+  · have h : (o.2.filter (fun kv => !(kv.1 == "errorcode"))).find? (fun p => p.1 == "errorcode") = none := by
+      rw [List.find?_eq_none]
+      intro x hx
+      simp only [List.mem_filter] at hx
+      simpa using hx.2
+    simp [errorcode?, Json.lookup, List.find?_append, h]
+
+/-- the generic codes are documented for every command -/
+theorem generic_documented (m : Mode) (cmd : String) :
+    ∀ x ∈ [(codes m).formatError, (codes m).invalidRequest, (codes m).wrongVersion, (codes m).commandUnknown],
+      x ∈ docCodes m cmd := by
+  intro x hx
+  unfold docCodes
+  cases m with
+  | v5 =>
+    apply List.mem_append_right
+    revert x; decide
+  | v1 =>
+    apply List.mem_append_right
+    revert x; decide
+
+/-- for each of the commands of a protocol mode: every code its validator or its handler can
+    produce (read off the model's control flow, `Proofs/Codes.lean`, over the generated tables) is
+    one the documents list for that command, or a generic one -/
+theorem command_codes_documented (m : Mode) (name : String) (h : (codes m).commands.contains name = true) :
+    ∀ x ∈ valCodes m name ++ opCodes m name, x ∈ docCodes m name := by
+  have hmem : name ∈ (codes m).commands := by simpa using h
+  cases m with
+  | v5 =>
+    simp only [codes, v5_commands, List.mem_cons, List.mem_nil_iff, or_false] at hmem
+    rcases hmem with h | h | h | h | h | h | h | h | h | h <;> subst h <;> decide
+  | v1 =>
+    simp only [codes, v1_commands, List.mem_cons, List.mem_nil_iff, or_false] at hmem
+    rcases hmem with h | h | h <;> subst h <;> decide
+
+/-- **C04, documented codes, for the whole manager model**: whatever the request (any JSON
+    value), the protocol mode and the device's behaviour (any script: every status word, time-out,
+    link error or malformed answer at every step), a reply of `handle_request` carries an integer
+    result code, and for a request naming one of the ten commands that code is one
+    docs/protocol*.md lists for that command or one of the generic codes. -/
+theorem reply_code_documented (m : Mode) (hs : Dongle.Hashes) (j : Json) (w : World) (r : Json)
+    (h : (handleRequest m hs j w).val = .ok r) :
+    ∃ code, errorcode? r = some code ∧ (docTitle (commandOf j) = "" ∨ code ∈ docCodes m (commandOf j)) := by
+  cases j with
+  | obj kvs =>
+    cases hg : gate (codes m) kvs with
+    | error e =>
+      simp only [handleRequest, hg, M.pure_apply] at h; injection h with h; subst h
+      refine ⟨e, errorcode_errReply _, Or.inr ?_⟩
+      have := gate_error_mem hg
+      apply generic_documented m _ e
+      simp only [List.mem_cons, List.mem_nil_iff, or_false] at this ⊢
+      exact Or.inr this
+    | ok name =>
+      have hcmd : commandOf (.obj kvs) = name := by
+        simp [commandOf, gate_ok_name hg]
+      have hdoc := command_codes_documented m name (gate_ok hg)
+      cases hv : validateCmd m name kvs with
+      | error e =>
+        simp only [handleRequest, hg, hv, M.pure_apply] at h; injection h with h; subst h
+        refine ⟨e, errorcode_errReply _, Or.inr ?_⟩
+        rw [hcmd]
+        exact hdoc e (List.mem_append_left _ (validateCmd_error hv))
+      | ok path =>
+        simp only [handleRequest, hg, hv] at h
+        obtain ⟨o, e1, w1, hop, hret, _, _⟩ := M.bind_ok_inv h
+        simp only [M.pure_apply] at hret; injection hret with hret; subst hret
+        refine ⟨o.1, errorcode_finish o, Or.inr ?_⟩
+        rw [hcmd]
+        apply hdoc o.1 (List.mem_append_right _ ?_)
+        exact operate_codes m hs name kvs path w o (by rw [hop])
+  | _ =>
+    simp only [handleRequest, M.pure_apply] at h; injection h with h; subst h
+    refine ⟨_, errorcode_errReply _, Or.inr ?_⟩
+    exact generic_documented m _ _ (by simp)
+
+/-- an error status of the device's own range is a conforming answer to any message -/
+theorem error_status_conforms (apdu : Bytes) (sw : Nat) (h : Dongle.isUserDefined sw = true) :
+    respConforms apdu (.sw sw) = true := by
+  simp [respConforms, h]
+
+/-- **an error status inside the device's own error range never stops the manager** (nor does any
+    other behaviour the device protocol allows): with no link repair pending, for every request
+    line, both modes and every script whose answers conform — error statuses of the range
+    0x69A0–0x6BFF / 0x6D00 at any step included — the line is answered with an integer errorcode,
+    no exception leaves the handler and no shutdown is requested. -/
+theorem error_range_never_stops (m : Mode) (hs : Dongle.Hashes) (p : Parsed) (w : World)
+    (hci : w.commIssue = false) (hb : ParsedBounded p)
+    (hconf : deviceConforms w.script (handleLine m hs p w).evs = true) :
+    ∃ lo, (handleLine m hs p w).val = .ok lo ∧ lo.exc = none ∧ lo.shutdown = false ∧
+      (errorcode? lo.reply).isSome = true := by
+  have h := handleLine_safe m hs p (fun r => (errorcode? r).isSome = true)
+    (fun j w r hr => by
+      obtain ⟨c, hc, _⟩ := reply_code_documented m hs j w r hr
+      simp [hc])
+    (by simp [errorcode_errReply]) hb w hci hconf
+  cases hv : (handleLine m hs p w).val with
+  | ok lo => rw [hv] at h; exact ⟨lo, rfl, h.2.1, h.2.2.2, h.2.2.1⟩
+  | error e => rw [hv] at h; exact h.2.elim
 
 end Props.C04
 end PowHsm
